@@ -64,6 +64,16 @@ Theorem C19_uses_only_supplied_rng : uses_only_supplied_rng pointsets_functions 
 Proof. exact pointsets_use_only_supplied_rng. Qed.
 Print Assumptions C19_uses_only_supplied_rng.
 
+(* error paths of the loop (not a clause of the property; they are what makes "the points returned" well defined):
+   active_cells always holds distinct valid indices, so samples[idx] cannot raise IndexError and
+   active_cells.remove(idx) removes the only occurrence — for every stream whose chosen indices come from
+   active_cells (the contract of rng.choice; the model answers None otherwise) *)
+Theorem C19_bluenoise_active_cells_valid : forall (sc nx ny : Z) (k : nat) (x0 : pt) (its : list (nat * list pt)) (st : state),
+  run sc nx ny k (init x0) its = Some st ->
+  NoDup (active st) /\ Forall (fun i => (i < List.length (samples st))%nat) (active st).
+Proof. exact bluenoise_active_ok. Qed.
+Print Assumptions C19_bluenoise_active_cells_valid.
+
 (* OBSERVATION outside the property (termination is not claimed; reported to the lead; the harness counts such
    calls as skipped): on the 1 x 1 grid, when the first sample is closer than r to all four corners of the domain
    (e.g. x0 = (1/2, 1/2)), every candidate at distance >= r from it — and the candidates are x0 + disk(r, 2r) — lies
